@@ -96,8 +96,8 @@ def cmpBool (a b : Bool) : Ordering :=
   | _, _ => .eq
 
 mutual
-/-- `impl Ord for Value`.  Objects: im::HashMap's `Ord` iterates in hash order; the model
-compares the key-sorted association lists lexicographically (deterministic stand-in). -/
+/-- `impl Ord for Value`: numbers by value, same-type scalars by their own order, arrays element
+by element, objects by their key-sorted entries, everything else by `rank`. -/
 def cmp : Value → Value → Ordering
   | int a, float b => F64.ocmp (F64.ofInt a) b
   | float a, int b => F64.ocmp a (F64.ofInt b)
@@ -108,7 +108,18 @@ def cmp : Value → Value → Ordering
   | date a, date b => compare a b
   | dur a, dur b => compare a b
   | obj a, obj b => cmpKV a b
+  | arr a, arr b => cmpL a b
   | a, b => compare a.rank b.rank
+/-- `Vec<Value>::cmp`: lexicographic, a proper prefix is smaller -/
+def cmpL : List Value → List Value → Ordering
+  | [], [] => .eq
+  | [], _ :: _ => .lt
+  | _ :: _, [] => .gt
+  | x :: xs, y :: ys =>
+    match cmp x y with
+    | .eq => cmpL xs ys
+    | o => o
+/-- key-sorted entries compared lexicographically as (key, value) pairs -/
 def cmpKV : List (String × Value) → List (String × Value) → Ordering
   | [], [] => .eq
   | [], _ :: _ => .lt
